@@ -212,7 +212,11 @@ func collectEntryNodes(node Node, m map[reflect.Type]struct{}) {
 			collectEntryNodes(el, m)
 		}
 	case Not:
-		collectEntryNodes(node.Node, m)
+		// A negation matches the nodes its operand doesn't match, which can be
+		// nodes of any type.
+		for _, T := range allTypes {
+			m[T] = struct{}{}
+		}
 	case Binding:
 		collectEntryNodes(node.Node, m)
 	case Nil, nil:
